@@ -43,6 +43,73 @@ class Scenario:
         return []
 
 
+_GEN_CTX = None
+
+
+def _gen_one(i):
+    repo, items = _GEN_CTX
+    it = items[i]
+    sys.setrecursionlimit(20000)
+    try:
+        obls = it.generate(repo)
+        return obls, None, it.func_info, it.stats, None
+    except E.ToolLimit as e:
+        return [], str(e) or 'tool limit', it.func_info, it.stats, None
+    except RecursionError:
+        return [], 'recursion limit in executor', it.func_info, it.stats, None
+    except Exception as e:
+        return [], 'executor exception: %r' % (e,), it.func_info, it.stats, traceback.format_exc()[-1500:]
+
+
+def _gen_child(i, conn):
+    try:
+        conn.send(_gen_one(i))
+    except Exception as e:
+        conn.send(([], 'executor exception: %r' % (e,), None, {}, traceback.format_exc()[-1500:]))
+    finally:
+        conn.close()
+
+
+def _generate_all(n, wall_s):
+    """one forked process per contract, at most cpu_count at a time, each killed after wall_s (z3's sequence solver
+    sometimes ignores its own timeout) -> tool limit for that contract, never a hang"""
+    import multiprocessing as mp
+    if os.environ.get('PYVC_SERIAL') == '1':
+        return [_gen_one(i) for i in range(n)]
+    ctx = mp.get_context('fork')
+    maxp = os.cpu_count() or 4
+    pending = list(range(n))
+    running = {}
+    out = [None] * n
+    while pending or running:
+        while pending and len(running) < maxp:
+            i = pending.pop(0)
+            pc, cc = ctx.Pipe(duplex=False)
+            p = ctx.Process(target=_gen_child, args=(i, cc))
+            p.start()
+            cc.close()
+            running[i] = (p, pc, time.time())
+        for i, (p, pc, t0) in list(running.items()):
+            if pc.poll(0.02):
+                try:
+                    out[i] = pc.recv()
+                except EOFError:
+                    out[i] = ([], 'generator process died', None, {}, None)
+                p.join(5)
+                if p.is_alive():
+                    p.kill()
+                del running[i]
+            elif not p.is_alive():
+                out[i] = ([], 'generator process died (exit %s)' % p.exitcode, None, {}, None)
+                del running[i]
+            elif time.time() - t0 > wall_s:
+                p.kill()
+                p.join(5)
+                out[i] = ([], 'generation wall-clock budget (%ds) exhausted' % wall_s, None, {}, None)
+                del running[i]
+    return out
+
+
 def func_infos(item):
     fi = item.func_info
     if fi is None:
@@ -85,21 +152,18 @@ def run_property(pid, items, bounded=(), tier='quick', seed=0, level='proof', tr
     all_obls = []
     tool_limits = []
     t0 = time.time()
-    for it in items:
-        try:
-            obls = it.generate(repo)
-            it.tool_limit = None
+    global _GEN_CTX
+    _GEN_CTX = (repo, items)
+    gens = _generate_all(len(items), float(os.environ.get('PYVC_GEN_WALL_S', '150' if tier == 'quick' else '600')))
+    for it, (obls, tl, fi, stats, trace) in zip(items, gens):
+        it.tool_limit, it.func_info, it.stats = tl, fi, stats
+        if tl is None:
             all_obls += obls
-        except E.ToolLimit as e:
-            it.tool_limit = str(e)
-            tool_limits.append({'contract': it.cid, 'function': it.target, 'reason': str(e)})
-        except RecursionError as e:
-            it.tool_limit = 'recursion limit in executor'
-            tool_limits.append({'contract': it.cid, 'function': it.target, 'reason': it.tool_limit})
-        except Exception as e:
-            it.tool_limit = 'executor exception: %r' % (e,)
-            tool_limits.append({'contract': it.cid, 'function': it.target, 'reason': it.tool_limit,
-                                'trace': traceback.format_exc()[-1500:]})
+        else:
+            d = {'contract': it.cid, 'function': it.target, 'reason': tl}
+            if trace:
+                d['trace'] = trace
+            tool_limits.append(d)
     gen_s = time.time() - t0
     # ---------------------------------------------------------------- solve
     t0 = time.time()
